@@ -29,7 +29,7 @@ def section(style, kind, entries, ind) -> list[str]:
         L += [f"{ind}{title}", f"{ind}{'-' * len(title)}"]
         for n, t, x in entries:
             if kind == "ex":
-                L.append(f"{ind}{x}")
+                L += [f"{ind}{xl}" for xl in x.split("\n")]
             elif kind == "ret":
                 L += [f"{ind}{t}", f"{ind}    {x}"]
             else:
@@ -39,7 +39,7 @@ def section(style, kind, entries, ind) -> list[str]:
         L.append(f"{ind}{title}")
         for n, t, x in entries:
             if kind == "ex":
-                L.append(f"{ind}    {x}")
+                L += [f"{ind}    {xl}" for xl in x.split("\n")]
             elif kind == "ret":
                 L.append(f"{ind}    {t}: {x}")
             else:
@@ -83,7 +83,7 @@ def desc_lines(o):
 def fun_src(style, owner, name, ind="", recv="", example=False) -> str:
     u = und(owner)
     d = doc(style, desc_lines(owner), ind + "    ", params=[("p", "int", f"tok_{u}_p_p is a parameter.")], ret=f"tok_{u}_res is the result.",
-            ex=f">>> tok_{u}_ex(1)" if example else None)
+            ex=f'>>> tok_{u}_ex(">>> 1",\n...        [...])' if example else None)
     args = ", ".join(x for x in (recv, "p: int") if x)
     return f"{ind}def {name}({args}) -> int:\n{d}\n{ind}    ...\n"
 
@@ -127,6 +127,7 @@ def comment_facts(decl_path: str, d) -> tuple[list, list, str]:
     """tokens with their tag, description lines, normalised comment text"""
     lines = sds.doc_lines(d.doc)
     found, desc, tag, tagname, in_desc = [], [], "desc", "", True
+    excode = []
     sigres = [r["name"] for r in (d.results or [])]
     for ln in lines:
         s = ln.strip()
@@ -142,13 +143,15 @@ def comment_facts(decl_path: str, d) -> tuple[list, list, str]:
             in_desc = False
         elif in_desc:
             desc.append(s)
+        if tag == "example" and s.startswith("//"):
+            excode.append(s)
         for t in TOK.findall(s):
             if t in DECODE:
                 o, it = DECODE[t]
                 found.append({"owner": o, "item": it, "decl": decl_path, "tag": tag, "tagname": tagname, "sigres": sigres})
             else:
                 found.append({"owner": "?" + t, "item": "?", "decl": decl_path, "tag": tag, "tagname": tagname, "sigres": sigres})
-    return found, desc, "\n".join(lines)
+    return found, desc, "\n".join(lines), excode
 
 
 def replay_package(style) -> str:
@@ -226,11 +229,11 @@ def main(v: Verdict) -> None:
             found, lines, texts = [], [], {}
             for owners, d in f.walk():
                 path = ".".join([o.pyname for o in owners] + [d.pyname])
-                fnd, desc, text = comment_facts(path, d)
+                fnd, desc, text, excode = comment_facts(path, d)
                 found += fnd
                 texts[path] = text
                 if path in ("fa", "fb", "fc", "CA", "CB", "CA.meth", "CB.meth"):
-                    lines.append({"decl": path, "text": desc})
+                    lines.append({"decl": path, "text": desc, "excode": excode})
             obs.append({"id": f"module:{style}:{mod}", "kind": "module", "obs": {"style": style, "found": found, "lines": lines}})
             per_style.setdefault(mod, {})[style] = texts
     # style equivalence for constructs common to the three structured styles (functions and methods; class CB)
